@@ -70,10 +70,28 @@ def shrink(h, d, WORK, ops):
     return cur
 
 def run(pid, tier, seed, ROOT, REPO, WORK):
-    out = {'coverage': {}, 'problems': [], 'violations': [], 'samples': []}
+    """the differential run twice: with the harness binary the checks use everywhere (debug
+    assertions on), then with the crate compiled without debug assertions (profile `nodebug`:
+    what a release build executes - a `debug_assert!` must not carry a side effect)"""
     h = os.path.join(ROOT, 'harness', 'target', 'debug', 'harness')
+    out = run_with(pid, tier, seed, ROOT, REPO, WORK, h, 600 if tier == 'quick' else 30000, '')
+    if out['violations']: return out
+    env = dict(os.environ, CARGO_NET_OFFLINE='true')
+    b = subprocess.run(['cargo', 'build', '--offline', '--profile', 'nodebug'], cwd=os.path.join(ROOT, 'harness'),
+                       stdout=subprocess.PIPE, stderr=subprocess.STDOUT, text=True, env=env)
+    h2 = os.path.join(ROOT, 'harness', 'target', 'nodebug', 'harness')
+    if b.returncode != 0 or not os.path.exists(h2):
+        out['problems'].append(('correspondence', 'the harness does not build without debug assertions: ' + b.stdout[-300:])); return out
+    out2 = run_with(pid, tier, seed + 1, ROOT, REPO, WORK, h2, 300 if tier == 'quick' else 10000, ' (crate built without debug assertions)')
+    out['coverage']['without_debug_assertions'] = {k: out2['coverage'].get(k) for k in ('evaluations', 'traces_validated_against_impl', 'operations')}
+    out['coverage']['evaluations'] = out['coverage'].get('evaluations', 0) + out2['coverage'].get('evaluations', 0)
+    out['coverage']['traces_validated_against_impl'] = out['coverage'].get('traces_validated_against_impl', 0) + out2['coverage'].get('traces_validated_against_impl', 0)
+    out['problems'] += out2['problems']; out['violations'] += out2['violations']
+    return out
+
+def run_with(pid, tier, seed, ROOT, REPO, WORK, h, count, note):
+    out = {'coverage': {}, 'problems': [], 'violations': [], 'samples': []}
     d = os.path.join(ROOT, 'ArcSwapModel', '.lake', 'build', 'bin', 'driver')
-    count = 600 if tier == 'quick' else 30000
     impl = os.path.join(WORK, 'seq_impl.txt'); spec = os.path.join(WORK, 'seq_spec.txt')
     # corpus first: minimized programs of past failures
     corpus = os.path.join(ROOT, 'scenarios', 'seq_corpus.txt')
@@ -82,13 +100,13 @@ def run(pid, tier, seed, ROOT, REPO, WORK):
         ops_list = [l[4:].strip() for l in open(corpus) if l.startswith('ops ')]
         r = run_ops(h, d, WORK, ops_list, 'corpus')
         if r is None:
-            out['violations'].append(('seq: the harness died on the corpus', corpus)); return out
+            out['violations'].append(('seq: the harness died on the corpus' + note, corpus)); return out
         for p, s in zip(*r):
             m = compare(p, s)
             if m: bad.append((p, m))
     p = subprocess.run([h, 'seq', '--seed', str(seed), '--count', str(count)], stdout=open(impl, 'w'), stderr=subprocess.PIPE, text=True)
     if p.returncode != 0:
-        out['violations'].append(('seq: the harness died (abort inside the crate?): ' + p.stderr[-300:], impl)); return out
+        out['violations'].append(('seq: the harness died (abort inside the crate?)' + note + ': ' + p.stderr[-300:], impl)); return out
     subprocess.run([d, 'spec', impl], stdout=open(spec, 'w'), timeout=1800)
     I = parse_impl(impl); S = parse_spec(spec)
     ops_hist = {}; nops = 0; lines = 0; cas_ok = 0; cas_fail = 0; fallback = 0; selfrep = 0
@@ -129,12 +147,12 @@ def run(pid, tier, seed, ROOT, REPO, WORK):
         path = os.path.join(path, f'{pid}-seq.txt')
         with open(path, 'w') as f:
             f.write(f'# {msg}\n# minimized from: {p_["head"]} ({len(bad)} of {len(I)} programs disagree)\n')
-            f.write('# replay: harness/target/debug/harness seq --ops-file <this file>  |  ArcSwapModel/.lake/build/bin/driver spec <its output>\n')
+            f.write(f'# replay: {h} seq --ops-file <this file>  |  ArcSwapModel/.lake/build/bin/driver spec <its output>\n')
             f.write('ops ' + ' ; '.join(small) + '\n')
             f.write('# original program\n# ops ' + p_['ops'] + '\n')
             if r and r[0]:
                 for st, ls in sorted(r[0][0]['st'].items()):
                     f.write(f'# --- {NAMES[st]}\n' + ''.join('# ' + l + '\n' for l in ls))
                 f.write('# --- Spec\n' + ''.join('# ' + l + '\n' for l in r[1][0]))
-        out['violations'].append(('seq: ' + msg, path))
+        out['violations'].append(('seq' + note + ': ' + msg, path))
     return out
